@@ -303,7 +303,9 @@ class KindInferenceMapper(Mapper):
         self.check = check
 
     def map_constant(self, expr):
-        if isinstance(expr, complex):
+        import numpy as np
+        # np.complex64 does not derive from complex.
+        if isinstance(expr, (complex, np.complexfloating)):
             return Scalar(is_real_valued=False)
         else:
             return Scalar(is_real_valued=True)
